@@ -597,7 +597,13 @@ func (in *Interp) intBinop(op token.Token, xb, yb *types.Basic, x, y *smt.Term) 
 			return c.ILt(y, x)
 		case token.GEQ:
 			return c.ILe(y, x)
-		case token.AND:
+		case token.AND, token.OR, token.XOR, token.AND_NOT:
+			if r, ok := in.intBitwiseConst(op, x, y); ok {
+				return r
+			}
+			if op != token.AND {
+				in.unsupported("int-mode bitwise " + op.String())
+			}
 			// mask with 2^k-1 constant
 			for _, p := range [][2]*smt.Term{{x, y}, {y, x}} {
 				if p[1].IsConst() && p[1].V.Sign() >= 0 {
@@ -613,8 +619,6 @@ func (in *Interp) intBinop(op token.Token, xb, yb *types.Basic, x, y *smt.Term) 
 				}
 			}
 			in.unsupported("int-mode bitwise AND")
-		case token.OR, token.XOR, token.AND_NOT:
-			in.unsupported("int-mode bitwise " + op.String())
 		}
 		panic("int binop " + op.String())
 	}
@@ -835,7 +839,8 @@ func (in *Interp) conv(dst, src types.Type, x value) value {
 			return x
 		}
 	}
-	panic(fmt.Sprintf("conv %v -> %v (%T)", src, dst, x))
+	in.unsupported(fmt.Sprintf("conv %v -> %v (%T)", src, dst, x))
+	return nil
 }
 
 func (in *Interp) convInt(x *smt.Term, sb, db *types.Basic) *smt.Term {
